@@ -263,7 +263,15 @@ def run_check(tier, seed):
         log('[S4] stale-id probe while another file is open answers %r -> model variant nullCheck=%d' % (probe, nullcheck))
         cfg = 'CFG %d %d' % (nullcheck, nmax)
         scripts = []   # (name, lines, model answers, leak scenario, harness args)
+        import resource
+        hard = resource.getrlimit(resource.RLIMIT_NOFILE)[1]
+        fd_ok = hard == resource.RLIM_INFINITY or hard >= 2 * nmax + 64
+        V.cov['max_files_scripts_run'] = bool(fd_ok)
+        if not fd_ok:
+            log('[S4] RLIMIT_NOFILE hard limit %s too small for %d simultaneously open files: max-files/enfile scripts skipped' % (hard, nmax))
         for name, lines, scen in directed(nmax):
+            if not fd_ok and name in ('max-files', 'enfile'):
+                continue
             L = [cfg] + lines
             p = subprocess.run([drv], input='\n'.join(L) + '\n', stdout=subprocess.PIPE, text=True)
             scripts.append((name, L, p.stdout.split('\n')[:len(L)], scen, ()))
@@ -275,7 +283,7 @@ def run_check(tier, seed):
                     p = subprocess.run([drv], input='\n'.join(L) + '\n', stdout=subprocess.PIPE, text=True)
                     scripts.append(('corpus-' + fn, L, p.stdout.split('\n')[:len(L)], None, ()))
         log('[S4] directed scripts prepared (%.1fs since start)' % V.t.s())
-        nscr, nops = (24, 60) if tier == 'quick' else (200, 150)
+        nscr, nops = (24, 60) if tier == 'quick' else (600, 200)
         dist = {}
         for i in range(nscr):
             p = subprocess.Popen([drv], stdin=subprocess.PIPE, stdout=subprocess.PIPE, text=True, bufsize=1)
